@@ -42,8 +42,12 @@ def run_shape(ctx, b, name, cfg, entries):
     F = shapes.struct_to_F(s)
     bounds = query_set(F, ctx.rng, ctx.quick())
     r, _ = TC.model_graph(ctx, wd, F, [], bounds, True, dump=False, workers=8)
-    if not r.ok:
-        raise core.Infra("MC_Reader (lookups) does not hold on shape %s:\n%s" % (name, r.out[-3000:]))
+    model_failed = not r.ok
+    if model_failed:
+        # the reader model cannot read this file correctly. Either the file is not what the format promises (the real
+        # queries below will then fail against the abstract table: a violation observed on the real code) or the model is
+        # wrong (the real queries pass: reported as a specification problem at the end)
+        ctx.notes.append("MC_Reader rejected the structure of shape %s" % name)
     ctx.add("states", r.distinct)
     ctx.add("transitions", r.generated)
     lines = ["scratch " + wd, "r_init 0 %s 1 0" % path]
@@ -59,7 +63,10 @@ def run_shape(ctx, b, name, cfg, entries):
     recs = wrecs + [e for e in core.convert_events(evs) if e["e"] != "Reset"]
     nonempty = sum(1 for i, e in enumerate(recs) if e["e"] == "Open" and i + 1 < len(recs) and recs[i + 1].get("ok"))
     ctx.add("nonempty_lookups", nonempty)
-    for ex, line in core.validate_batch(ctx, recs, name):
+    bad = core.validate_batch(ctx, recs, name)
+    if model_failed and not bad:
+        raise core.Infra("MC_Reader (lookups) does not hold on shape %s although the real reader answers every query correctly (specification problem):\n%s" % (name, r.out[-3000:]))
+    for ex, line in bad:
         core.report(ctx, "lookup result not explained by the abstract table at trace line %d: %s (query %s)" % (
             line, json.dumps(ex[line - 1])[:200], json.dumps(next((e for e in reversed(ex[:line]) if e["e"] == "Open"), {}))[:200]),
             {"kind": "trace", "trace": ex, "line": line, "shape": name})
@@ -106,7 +113,7 @@ def run(ctx):
     b = build.build("asan")
     vg = gen.VGen()
     sh = gen.shape_tables(ctx.rng, vg)
-    pick = [sh[1], sh[2], sh[4], sh[6]] if ctx.quick() else sh
+    pick = [sh[1], sh[2], sh[6], sh[7]] if ctx.quick() else sh
     for (name, cfg, entries) in pick:
         run_shape(ctx, b, name, cfg, entries)
     random_tables(ctx, b)
